@@ -148,12 +148,12 @@ def fuzz_stage(pid, cfg, hdir, tier, seed):
     secs = int(os.environ.get("VERIF_FUZZTIME", fz.get("seconds", 300)))
     tdir = os.path.join(hdir, "props", "testdata", "fuzz", fz["target"])
     before = set(os.listdir(tdir)) if os.path.isdir(tdir) else set()
-    cache = tempfile.mkdtemp(prefix="verif-fuzzcache-", dir=scratch_root())
+    cache = tempfile.mkdtemp(prefix="verif-fuzzcache-", dir=scratch_root())  # kept for symmetry; go test uses $GOCACHE/fuzz
     env = goenv()
     env["GOCACHE"] = env.get("GOCACHE") or subprocess.run(["go", "env", "GOCACHE"], capture_output=True, text=True, env=env).stdout.strip()
     env.update(VERIF_TIER=tier, VERIF_KF=os.path.join(HERE, "known_findings.json"), VERIF_OUT="")
     args = ["go", "test", "-tags", "verif", "-vet=off", "-run", "^$", "-fuzz", "^%s$" % fz["target"], "-fuzztime", "%ds" % secs,
-            "-test.fuzzcachedir", cache, "./props"]
+            "./props"]
     t0 = time.time()
     try:
         r = subprocess.run(args, cwd=hdir, env=env, stdout=subprocess.PIPE, stderr=subprocess.STDOUT, text=True, timeout=secs + 2400)
@@ -306,6 +306,8 @@ def run_check(pid, tier, seed, replay=None):
             fv, fnotes, fextra = fuzz_stage(pid, cfg, hdir, tier, seed)
             viols += fv
             notes += fnotes
+            if fnotes:
+                infra.append(("native-fuzz", 2, fnotes[0]))
             for k2, v2 in fextra.items():
                 ev["extra"][k2] = ev["extra"].get(k2, 0) + v2
         wall = time.time() - t0
